@@ -1,8 +1,10 @@
 import BufModel.Cache
 import BufProofs.Lemmas.BucketLemmas
+import BufProofs.Props.C15
 /-
   The inductive invariant of the module-cache writer protocol, for every interleaving of any
-  number of writers with crashes and failures.
+  number of writers with crashes and failures; files are written in any order, several in
+  flight, each holding an arbitrary prefix.
 -/
 namespace BufModel.Cache
 open BufModel.Path BufModel.Bucket
@@ -20,10 +22,14 @@ def OnlyPayloadKeys (exp : Expected) (entry : Mem) : Prop :=
 
 structure Inv (exp : Expected) (s : Sys) : Prop where
   markerComplete : markerOK s.entry = true → Complete exp s.entry ∧ s.entry.find markerPath = some markerCanonical
-  writing : ∀ w i t, s.writers[w]? = some (.writing i t) →
-    s.lock = some w ∧ markerOK s.entry = false ∧ i ≤ exp.payload.length ∧
-      ∀ j, j < i → ∀ pc, exp.payload[j]? = some pc → s.entry.find pc.1 = some pc.2
-  lockHeld : ∀ w, s.lock = some w → ∃ i t, s.writers[w]? = some (.writing i t)
+  /-- the writer inside a store holds the lock, there is no valid marker, every `done` object is
+      there in full, every in-flight object is not done and holds exactly the recorded prefix -/
+  writing : ∀ w done infl, s.writers[w]? = some (.writing done infl) →
+    s.lock = some w ∧ markerOK s.entry = false ∧
+      (∀ i ∈ done, ∀ pc, exp.payload[i]? = some pc → s.entry.find pc.1 = some pc.2) ∧
+      (∀ ik ∈ infl, ik.1 ∉ done ∧ ∃ pc, exp.payload[ik.1]? = some pc ∧ ik.2 ≤ pc.2.length ∧
+          s.entry.find pc.1 = some (takeStr ik.2 pc.2))
+  lockHeld : ∀ w, s.lock = some w → ∃ done infl, s.writers[w]? = some (.writing done infl)
   keys : OnlyPayloadKeys exp s.entry
   nodupKeys : NodupKeys s.entry
 
@@ -36,6 +42,10 @@ theorem markerOK_putObj_ne (m : Mem) (p : Str) (c : Content) (h : p ≠ markerPa
     markerOK (putObj m p c) = markerOK m := by
   unfold markerOK; rw [find_putObj_ne _ _ _ _ h]
 
+theorem markerGarbled_putObj_ne (m : Mem) (p : Str) (c : Content) (h : p ≠ markerPath) :
+    markerGarbled (putObj m p c) = markerGarbled m := by
+  unfold markerGarbled; rw [find_putObj_ne _ _ _ _ h]
+
 theorem onlyKeys_putObj {exp : Expected} {m : Mem} (h : OnlyPayloadKeys exp m) (p : Str) (c : Content)
     (hp : p = markerPath ∨ p ∈ exp.payload.map (·.1)) : OnlyPayloadKeys exp (putObj m p c) := by
   intro kv hkv
@@ -44,10 +54,10 @@ theorem onlyKeys_putObj {exp : Expected} {m : Mem} (h : OnlyPayloadKeys exp m) (
   · exact h kv (List.mem_filter.mp hm).1
 
 theorem getElem?_set_eq {α : Type} (l : List α) (i : Nat) (a : α) (h : i < l.length) : (l.set i a)[i]? = some a := by
-  simp [List.getElem?_set, h]
+  simp [h]
 
-theorem getElem?_set_ne' {α : Type} (l : List α) (i j : Nat) (a : α) (h : i ≠ j) : (l.set i a)[j]? = l[j]? := by
-  simp [List.getElem?_set, h]
+theorem getElem?_set_ne {α : Type} (l : List α) (i j : Nat) (a : α) (h : i ≠ j) : (l.set i a)[j]? = l[j]? := by
+  simp [h]
 
 theorem payload_path_mem {exp : Expected} {i : Nat} {pc : Str × Content} (h : exp.payload[i]? = some pc) :
     pc.1 ∈ exp.payload.map (·.1) :=
@@ -68,73 +78,166 @@ theorem payload_paths_distinct {exp : Expected} (wf : WF exp) {i j : Nat} {a b :
   have := (List.getElem?_inj hil wf.nodup (j := j)).mp (by rw [hi', hj'])
   exact hne this
 
-
-theorem writing_unique {exp : Expected} {s : Sys} (inv : Inv exp s) {w w' i i' : Nat} {t t' : Bool}
-    (h : s.writers[w]? = some (.writing i t)) (h' : s.writers[w']? = some (.writing i' t')) : w = w' := by
-  have a := (inv.writing w i t h).1
-  have b := (inv.writing w' i' t' h').1
+theorem writing_unique {exp : Expected} {s : Sys} (inv : Inv exp s) {w w' : Nat} {d d' : List Nat}
+    {f f' : List (Nat × Nat)}
+    (h : s.writers[w]? = some (.writing d f)) (h' : s.writers[w']? = some (.writing d' f')) : w = w' := by
+  have a := (inv.writing w d f h).1
+  have b := (inv.writing w' d' f' h').1
   rw [a] at b; exact Option.some.inj b
 
 theorem lt_of_getElem?_some {α : Type} {l : List α} {i : Nat} {a : α} (h : l[i]? = some a) : i < l.length := by
   rcases List.getElem?_eq_some_iff.mp h with ⟨h, _⟩; exact h
 
+/-! ### in-flight bookkeeping -/
+
+theorem takeStr_zero (c : Content) : takeStr 0 c = "" := by simp [takeStr]
+
+theorem takeStr_length (c : Content) : takeStr c.length c = c := by
+  unfold takeStr
+  rw [← String.length_toList, List.take_length, String.ofList_toList]
+
+theorem inflK_some_mem {infl : List (Nat × Nat)} {i k : Nat} (h : inflK infl i = some k) : (i, k) ∈ infl := by
+  induction infl with
+  | nil => cases h
+  | cons jk rest ih =>
+    obtain ⟨j, k'⟩ := jk
+    unfold inflK at h
+    split at h
+    · rename_i e; subst e; injection h with h; subst h; exact List.mem_cons_self
+    · exact List.mem_cons_of_mem _ (ih h)
+
+theorem inflK_none_ne {infl : List (Nat × Nat)} {i : Nat} (h : inflK infl i = none) :
+    ∀ ik ∈ infl, ik.1 ≠ i := by
+  induction infl with
+  | nil => intro ik hik; cases hik
+  | cons jk rest ih =>
+    obtain ⟨j, k'⟩ := jk
+    unfold inflK at h
+    split at h
+    · cases h
+    · rename_i hne
+      intro ik hik
+      rcases List.mem_cons.mp hik with e | hr
+      · subst e; exact hne
+      · exact ih h ik hr
+
+theorem inflK_cons_eq (infl : List (Nat × Nat)) (i k : Nat) : inflK ((i, k) :: infl) i = some k := by
+  simp [inflK]
+
+theorem inflK_cons_ne (infl : List (Nat × Nat)) (i j k : Nat) (h : j ≠ i) :
+    inflK ((j, k) :: infl) i = inflK infl i := by
+  simp [inflK, h]
+
+theorem inflK_dropIdx_ne (infl : List (Nat × Nat)) (i j : Nat) (h : i ≠ j) :
+    inflK (dropIdx infl i) j = inflK infl j := by
+  induction infl with
+  | nil => rfl
+  | cons jk rest ih =>
+    obtain ⟨a, k'⟩ := jk
+    by_cases ha : a = i
+    · subst ha
+      have : dropIdx ((a, k') :: rest) a = dropIdx rest a := by simp [dropIdx]
+      rw [this, ih, inflK_cons_ne _ _ _ _ h]
+    · have : dropIdx ((a, k') :: rest) i = (a, k') :: dropIdx rest i := by simp [dropIdx, ha]
+      rw [this]
+      by_cases haj : a = j
+      · subst haj; rw [inflK_cons_eq, inflK_cons_eq]
+      · rw [inflK_cons_ne _ _ _ _ haj, inflK_cons_ne _ _ _ _ haj]; exact ih
+
+theorem mem_dropIdx {infl : List (Nat × Nat)} {i : Nat} {ik : Nat × Nat} (h : ik ∈ dropIdx infl i) :
+    ik ∈ infl ∧ ik.1 ≠ i := by
+  have := List.mem_filter.mp h
+  exact ⟨this.1, by simpa using this.2⟩
+
+theorem allDone_iff (n : Nat) (done : List Nat) : allDone n done = true ↔ ∀ i, i < n → i ∈ done := by
+  unfold allDone
+  simp [List.all_eq_true, List.mem_range]
+
+/-! ### the invariant is inductive -/
+
 /-- Updating writer `w` (which exists) to a non-writing pc, releasing/keeping `lock'`, with the
     same entry. -/
 theorem inv_leave {exp : Expected} {s : Sys} (inv : Inv exp s) (w : Nat) (pcOld pcNew : WPc)
-    (hw : s.writers[w]? = some pcOld) (hnew : ∀ i t, pcNew ≠ .writing i t)
+    (hw : s.writers[w]? = some pcOld) (hnew : ∀ d f, pcNew ≠ .writing d f)
     (lock' : Option Nat)
-    (hlock : (∃ i t, pcOld = .writing i t) → lock' = none)
-    (hlock2 : (∀ i t, pcOld ≠ .writing i t) → lock' = s.lock) :
+    (hlock : (∃ d f, pcOld = .writing d f) → lock' = none)
+    (hlock2 : (∀ d f, pcOld ≠ .writing d f) → lock' = s.lock) :
     Inv exp { s with lock := lock', writers := setPc s.writers w pcNew } := by
   have hwl := lt_of_getElem?_some hw
   refine ⟨inv.markerComplete, ?_, ?_, inv.keys, inv.nodupKeys⟩
-  · intro w' i t h
+  · intro w' d f h
     by_cases e : w' = w
     · subst e; simp only [setPc] at h; rw [getElem?_set_eq _ _ _ hwl] at h
-      exact absurd (Option.some.inj h) (hnew i t)
-    · simp only [setPc] at h; rw [getElem?_set_ne' _ _ _ _ (Ne.symm e)] at h
-      have old := inv.writing w' i t h
-      -- the old pc of w cannot be writing (else w = w'), so the lock is unchanged
-      have hnw : ∀ i0 t0, pcOld ≠ .writing i0 t0 := by
-        intro i0 t0 e0; subst e0; exact e (writing_unique inv h hw)
+      exact absurd (Option.some.inj h) (hnew d f)
+    · simp only [setPc] at h; rw [getElem?_set_ne _ _ _ _ (Ne.symm e)] at h
+      have old := inv.writing w' d f h
+      have hnw : ∀ d0 f0, pcOld ≠ .writing d0 f0 := by
+        intro d0 f0 e0; subst e0; exact e (writing_unique inv h hw)
       simp only
       rw [hlock2 hnw]; exact old
   · intro w' hl
     simp only at hl
-    by_cases hc : ∃ i t, pcOld = .writing i t
+    by_cases hc : ∃ d f, pcOld = .writing d f
     · rw [hlock hc] at hl; cases hl
-    · have hnw : ∀ i0 t0, pcOld ≠ .writing i0 t0 := fun i0 t0 e0 => hc ⟨i0, t0, e0⟩
+    · have hnw : ∀ d0 f0, pcOld ≠ .writing d0 f0 := fun d0 f0 e0 => hc ⟨d0, f0, e0⟩
       rw [hlock2 hnw] at hl
-      obtain ⟨i, t, h⟩ := inv.lockHeld w' hl
-      have : w' ≠ w := by intro e; subst e; rw [hw] at h; exact hnw i t (Option.some.inj h)
-      exact ⟨i, t, by simp only [setPc]; rw [getElem?_set_ne' _ _ _ _ (Ne.symm this)]; exact h⟩
+      obtain ⟨d, f, h⟩ := inv.lockHeld w' hl
+      have : w' ≠ w := by intro e; subst e; rw [hw] at h; exact hnw d f (Option.some.inj h)
+      exact ⟨d, f, by simp only [setPc]; rw [getElem?_set_ne _ _ _ _ (Ne.symm this)]; exact h⟩
 
-/-- The lock holder `w` writes object `p` (a payload path) and moves to `writing i' t'`. -/
-theorem inv_write {exp : Expected} (wf : WF exp) {s : Sys} (inv : Inv exp s) (w i : Nat) (t : Bool)
-    (hw : s.writers[w]? = some (.writing i t)) (k : Nat) (p : Str) (cOld c : Content)
-    (hk : exp.payload[k]? = some (p, cOld)) (i' : Nat) (t' : Bool) (hi' : i' ≤ exp.payload.length)
-    (hprefix : ∀ j, j < i' → ∀ pc, exp.payload[j]? = some pc → (putObj s.entry p c).find pc.1 = some pc.2) :
-    Inv exp { s with entry := putObj s.entry p c, writers := setPc s.writers w (.writing i' t') } := by
+/-- The lock holder `w` writes content `c` to payload object `k` (not done) and moves to
+    `writing done' infl'`, where every new done index is an old one or `k` written in full, and
+    every in-flight entry is an old one (other than `k`) or `k` holding the prefix `c`. -/
+theorem inv_write {exp : Expected} (wf : WF exp) {s : Sys} (inv : Inv exp s) (w : Nat)
+    (done : List Nat) (infl : List (Nat × Nat))
+    (hw : s.writers[w]? = some (.writing done infl)) (k : Nat) (p : Str) (cfull c : Content)
+    (hk : exp.payload[k]? = some (p, cfull)) (hkd : k ∉ done)
+    (done' : List Nat) (infl' : List (Nat × Nat))
+    (hdone' : ∀ i ∈ done', i ∈ done ∨ (i = k ∧ c = cfull))
+    (hinfl' : ∀ ik ∈ infl', ik.1 ∉ done' ∧
+      ((ik ∈ infl ∧ ik.1 ≠ k) ∨ (ik.1 = k ∧ ik.2 ≤ cfull.length ∧ c = takeStr ik.2 cfull))) :
+    Inv exp { s with entry := putObj s.entry p c, writers := setPc s.writers w (.writing done' infl') } := by
   have hwl := lt_of_getElem?_some hw
-  have old := inv.writing w i t hw
+  have old := inv.writing w done infl hw
   have hpm : p ≠ markerPath := payload_path_ne_marker wf hk
   have hmk : markerOK (putObj s.entry p c) = false := by rw [markerOK_putObj_ne _ _ _ hpm]; exact old.2.1
   refine ⟨?_, ?_, ?_, onlyKeys_putObj inv.keys p c (Or.inr (payload_path_mem hk)), nodupKeys_put inv.nodupKeys p c⟩
   · intro h; simp only at h; rw [hmk] at h; cases h
-  · intro w' i0 t0 h
+  · intro w' d0 f0 h
     by_cases e : w' = w
     · subst e; simp only [setPc] at h; rw [getElem?_set_eq _ _ _ hwl] at h
       have := Option.some.inj h
       injection this with e1 e2; subst e1; subst e2
-      exact ⟨old.1, hmk, hi', hprefix⟩
-    · simp only [setPc] at h; rw [getElem?_set_ne' _ _ _ _ (Ne.symm e)] at h
+      refine ⟨old.1, hmk, ?_, ?_⟩
+      · intro i hi pc hpc
+        rcases hdone' i hi with hold | ⟨hik, hc⟩
+        · have hne : k ≠ i := fun e => hkd (e ▸ hold)
+          have hp : p ≠ pc.1 := payload_paths_distinct wf hk hpc hne
+          simp only
+          rw [find_putObj_ne _ _ _ _ hp]
+          exact old.2.2.1 i hold pc hpc
+        · subst hik; rw [hk] at hpc; have := Option.some.inj hpc; subst this; subst hc
+          exact find_putObj_eq _ _ _
+      · intro ik hik
+        obtain ⟨hnd, hcase⟩ := hinfl' ik hik
+        refine ⟨hnd, ?_⟩
+        rcases hcase with ⟨hold, hne⟩ | ⟨hik1, hlen, hc⟩
+        · obtain ⟨_, pc, hpc, hl, hf⟩ := old.2.2.2 ik hold
+          refine ⟨pc, hpc, hl, ?_⟩
+          have hp : p ≠ pc.1 := payload_paths_distinct wf hk hpc (Ne.symm hne)
+          simp only
+          rw [find_putObj_ne _ _ _ _ hp]; exact hf
+        · refine ⟨(p, cfull), by rw [hik1]; exact hk, hlen, ?_⟩
+          simp only
+          rw [find_putObj_eq, hc]
+    · simp only [setPc] at h; rw [getElem?_set_ne _ _ _ _ (Ne.symm e)] at h
       exact absurd (writing_unique inv h hw) e
   · intro w' hl
     simp only at hl
     rw [old.1] at hl
     have : w' = w := (Option.some.inj hl).symm
     subst this
-    exact ⟨i', t', by simp only [setPc]; exact getElem?_set_eq _ _ _ hwl⟩
+    exact ⟨done', infl', by simp only [setPc]; exact getElem?_set_eq _ _ _ hwl⟩
 
 theorem step_inv {exp : Expected} (wf : WF exp) (s : Sys) (inv : Inv exp s) (a : Act) :
     Inv exp (step exp s a) := by
@@ -144,75 +247,117 @@ theorem step_inv {exp : Expected} (wf : WF exp) (s : Sys) (inv : Inv exp s) (a :
     split
     · rename_i hw hl
       split
-      · exact inv_leave inv w .start (.finished true) hw (by intro i t h; cases h) s.lock
-          (by intro ⟨i, t, h⟩; cases h) (fun _ => rfl)
-      · rename_i hmk
-        have hwl := lt_of_getElem?_some hw
-        have hmk' : markerOK s.entry = false := by simpa using hmk
-        refine ⟨inv.markerComplete, ?_, ?_, inv.keys, inv.nodupKeys⟩
-        · intro w' i t h
-          by_cases e : w' = w
-          · subst e; simp only [setPc] at h; rw [getElem?_set_eq _ _ _ hwl] at h
-            have := Option.some.inj h; injection this with e1 e2; subst e1; subst e2
-            exact ⟨rfl, hmk', Nat.zero_le _, by intro j hj; omega⟩
-          · simp only [setPc] at h; rw [getElem?_set_ne' _ _ _ _ (Ne.symm e)] at h
-            have := (inv.writing w' i t h).1
-            rw [hl] at this; cases this
-        · intro w' hl'
-          simp only at hl'
-          have : w' = w := (Option.some.inj hl').symm
-          subst this
-          exact ⟨0, false, by simp only [setPc]; exact getElem?_set_eq _ _ _ hwl⟩
+      · exact inv_leave inv w .start (.finished true) hw (by intro d f h; cases h) s.lock
+          (by intro ⟨d, f, h⟩; cases h) (fun _ => rfl)
+      · split
+        · exact inv_leave inv w .start (.finished false) hw (by intro d f h; cases h) s.lock
+            (by intro ⟨d, f, h⟩; cases h) (fun _ => rfl)
+        · rename_i hmk _
+          have hwl := lt_of_getElem?_some hw
+          have hmk' : markerOK s.entry = false := by simpa using hmk
+          refine ⟨inv.markerComplete, ?_, ?_, inv.keys, inv.nodupKeys⟩
+          · intro w' d f h
+            by_cases e : w' = w
+            · subst e; simp only [setPc] at h; rw [getElem?_set_eq _ _ _ hwl] at h
+              have := Option.some.inj h; injection this with e1 e2; subst e1; subst e2
+              exact ⟨rfl, hmk', (by intro i hi; cases hi), (by intro ik hik; cases hik)⟩
+            · simp only [setPc] at h; rw [getElem?_set_ne _ _ _ _ (Ne.symm e)] at h
+              have := (inv.writing w' d f h).1
+              rw [hl] at this; cases this
+          · intro w' hl'
+            simp only at hl'
+            have : w' = w := (Option.some.inj hl').symm
+            subst this
+            exact ⟨[], [], by simp only [setPc]; exact getElem?_set_eq _ _ _ hwl⟩
     · exact inv
-  | truncate w =>
+  | truncate w i =>
     simp only [step]
     split
-    · rename_i i hw
+    · rename_i done infl hw
       split
       · rename_i p c hk
-        have old := inv.writing w i false hw
-        refine inv_write wf inv w i false hw i p c "" hk i true old.2.2.1 ?_
-        intro j hj pc hpc
-        have hne : p ≠ pc.1 := fun e => payload_paths_distinct wf hk hpc (by omega) (by simpa using e)
-        rw [find_putObj_ne _ _ _ _ hne]
-        exact old.2.2.2 j hj pc hpc
+        split
+        · exact inv
+        · rename_i hg
+          simp only [Bool.or_eq_true, not_or, Bool.not_eq_true, List.contains_iff_mem] at hg
+          have hnd : i ∉ done := by
+            intro h; have := hg.1; simp [h] at this
+          have hnone : inflK infl i = none := by
+            cases h : inflK infl i with
+            | none => rfl
+            | some k => have := hg.2; simp [h] at this
+          have old := inv.writing w done infl hw
+          refine inv_write wf inv w done infl hw i p c "" hk hnd done ((i, 0) :: infl)
+            (fun j hj => Or.inl hj) ?_
+          intro ik hik
+          rcases List.mem_cons.mp hik with e | hr
+          · subst e
+            exact ⟨hnd, Or.inr ⟨rfl, Nat.zero_le _, (takeStr_zero c).symm⟩⟩
+          · exact ⟨(old.2.2.2 ik hr).1, Or.inl ⟨hr, inflK_none_ne hnone ik hr⟩⟩
       · exact inv
     · exact inv
-  | fill w =>
+  | grow w i k =>
     simp only [step]
     split
-    · rename_i i hw
+    · rename_i done infl hw
       split
-      · rename_i p c hk
-        have old := inv.writing w i true hw
-        have hil : i < exp.payload.length := lt_of_getElem?_some hk
-        refine inv_write wf inv w i true hw i p c c hk (i + 1) false (by omega) ?_
-        intro j hj pc hpc
-        by_cases e : j = i
-        · subst e; rw [hk] at hpc; have := Option.some.inj hpc; subst this
-          exact find_putObj_eq _ _ _
-        · have hne : p ≠ pc.1 := fun e' => payload_paths_distinct wf hk hpc (fun x => e x.symm) (by simpa using e')
-          rw [find_putObj_ne _ _ _ _ hne]
-          exact old.2.2.2 j (by omega) pc hpc
+      · rename_i p c k0 hk hk0
+        split
+        · rename_i hle
+          have old := inv.writing w done infl hw
+          have hmem := inflK_some_mem hk0
+          have hnd : i ∉ done := (old.2.2.2 _ hmem).1
+          refine inv_write wf inv w done infl hw i p c (takeStr k c) hk hnd done ((i, k) :: dropIdx infl i)
+            (fun j hj => Or.inl hj) ?_
+          intro ik hik
+          rcases List.mem_cons.mp hik with e | hr
+          · subst e
+            exact ⟨hnd, Or.inr ⟨rfl, hle.2, rfl⟩⟩
+          · have := mem_dropIdx hr
+            exact ⟨(old.2.2.2 ik this.1).1, Or.inl this⟩
+        · exact inv
+      · exact inv
+    · exact inv
+  | fill w i =>
+    simp only [step]
+    split
+    · rename_i done infl hw
+      split
+      · rename_i p c k0 hk hk0
+        have old := inv.writing w done infl hw
+        have hmem := inflK_some_mem hk0
+        have hnd : i ∉ done := (old.2.2.2 _ hmem).1
+        refine inv_write wf inv w done infl hw i p c c hk hnd (i :: done) (dropIdx infl i) ?_ ?_
+        · intro j hj
+          rcases List.mem_cons.mp hj with e | hr
+          · exact Or.inr ⟨e, rfl⟩
+          · exact Or.inl hr
+        · intro ik hik
+          have := mem_dropIdx hik
+          refine ⟨?_, Or.inl this⟩
+          intro hc
+          rcases List.mem_cons.mp hc with e | hr
+          · exact this.2 e
+          · exact (old.2.2.2 ik this.1).1 hr
       · exact inv
     · exact inv
   | fail w =>
     simp only [step]
     split
-    · rename_i i t hw
-      split
-      · exact inv_leave inv w (.writing i t) (.finished false) hw (by intro i t h; cases h) none
-          (fun _ => rfl) (fun h => absurd rfl (h i t))
-      · exact inv
+    · rename_i d f hw
+      exact inv_leave inv w (.writing d f) (.finished false) hw (by intro d f h; cases h) none
+        (fun _ => rfl) (fun h => absurd rfl (h d f))
     · exact inv
   | commit w =>
     simp only [step]
     split
-    · rename_i i hw
+    · rename_i done infl hw
       split
-      · rename_i hi
+      · rename_i hg
+        simp only [Bool.and_eq_true] at hg
+        have hall := (allDone_iff _ _).mp hg.2
         have hwl := lt_of_getElem?_some hw
-        have old := inv.writing w i false hw
+        have old := inv.writing w done infl hw
         refine ⟨?_, ?_, ?_, onlyKeys_putObj inv.keys markerPath markerCanonical (Or.inl rfl),
           nodupKeys_put inv.nodupKeys _ _⟩
         · intro _
@@ -223,12 +368,12 @@ theorem step_inv {exp : Expected} (wf : WF exp) (s : Sys) (inv : Inv exp s) (a :
           have hne : markerPath ≠ pc.1 := fun e => payload_path_ne_marker wf hj' e.symm
           simp only
           rw [find_putObj_ne _ _ _ _ hne]
-          exact old.2.2.2 j (by omega) pc hj'
-        · intro w' i0 t0 h
+          exact old.2.2.1 j (hall j hjl) pc hj'
+        · intro w' d0 f0 h
           by_cases e : w' = w
           · subst e; simp only [setPc] at h; rw [getElem?_set_eq _ _ _ hwl] at h
             cases Option.some.inj h
-          · simp only [setPc] at h; rw [getElem?_set_ne' _ _ _ _ (Ne.symm e)] at h
+          · simp only [setPc] at h; rw [getElem?_set_ne _ _ _ _ (Ne.symm e)] at h
             exact absurd (writing_unique inv h hw) e
         · intro w' hl; simp only at hl; cases hl
       · exact inv
@@ -236,21 +381,21 @@ theorem step_inv {exp : Expected} (wf : WF exp) (s : Sys) (inv : Inv exp s) (a :
   | commitFail w =>
     simp only [step]
     split
-    · rename_i i hw
+    · rename_i d f hw
       split
-      · exact inv_leave inv w (.writing i false) (.finished false) hw (by intro i t h; cases h) none
-          (fun _ => rfl) (fun h => absurd rfl (h i false))
+      · exact inv_leave inv w (.writing d f) (.finished false) hw (by intro d f h; cases h) none
+          (fun _ => rfl) (fun h => absurd rfl (h d f))
       · exact inv
     · exact inv
   | crash w =>
     simp only [step]
     split
-    · rename_i i t hw
-      exact inv_leave inv w (.writing i t) .crashed hw (by intro i t h; cases h) none
-        (fun _ => rfl) (fun h => absurd rfl (h i t))
+    · rename_i d f hw
+      exact inv_leave inv w (.writing d f) .crashed hw (by intro d f h; cases h) none
+        (fun _ => rfl) (fun h => absurd rfl (h d f))
     · rename_i hw
-      exact inv_leave inv w .start .crashed hw (by intro i t h; cases h) s.lock
-        (by intro ⟨i, t, h⟩; cases h) (fun _ => rfl)
+      exact inv_leave inv w .start .crashed hw (by intro d f h; cases h) s.lock
+        (by intro ⟨d, f, h⟩; cases h) (fun _ => rfl)
     · exact inv
 
 theorem runActs_inv {exp : Expected} (wf : WF exp) (acts : List Act) (s : Sys) (inv : Inv exp s) :
@@ -259,71 +404,130 @@ theorem runActs_inv {exp : Expected} (wf : WF exp) (acts : List Act) (s : Sys) (
   | nil => exact inv
   | cons a rest ih => exact ih _ (step_inv wf s inv a)
 
+theorem runActs_append (exp : Expected) (s : Sys) (a b : List Act) :
+    runActs exp s (a ++ b) = runActs exp (runActs exp s a) b := by
+  simp [runActs, List.foldl_append]
+
+theorem runActs_cons (exp : Expected) (s : Sys) (a : Act) (rest : List Act) :
+    runActs exp s (a :: rest) = runActs exp (step exp s a) rest := rfl
+
 
 /-! ### Who can change what -/
 
 /-- A step changes the pc of at most one writer, and only of one that is `start` or `writing`. -/
 theorem step_writers (exp : Expected) (s : Sys) (a : Act) :
     (step exp s a).writers = s.writers ∨
-      ∃ w pcOld pcNew, s.writers[w]? = some pcOld ∧ (∀ b, pcOld ≠ WPc.finished b) ∧
-        (step exp s a).writers = setPc s.writers w pcNew := by
+      ∃ w pcOld pcNew, s.writers[w]? = some pcOld ∧ (∀ b, pcOld ≠ WPc.finished b) ∧ pcOld ≠ WPc.crashed ∧
+        (step exp s a).writers = setPc s.writers w pcNew ∧
+          (pcNew = WPc.finished true → markerOK (step exp s a).entry = true) := by
   cases a with
   | acquire w =>
     simp only [step]; split
     · rename_i hw _
       split
-      · exact Or.inr ⟨w, WPc.start, _, hw, (by intro b h; exact WPc.noConfusion h), rfl⟩
-      · exact Or.inr ⟨w, WPc.start, _, hw, (by intro b h; exact WPc.noConfusion h), rfl⟩
+      · rename_i hm
+        exact Or.inr ⟨w, WPc.start, _, hw, (by intro b h; exact WPc.noConfusion h), (by intro h; cases h), rfl, (fun _ => hm)⟩
+      · split
+        · exact Or.inr ⟨w, WPc.start, _, hw, (by intro b h; exact WPc.noConfusion h), (by intro h; cases h), rfl, (by intro e; cases e)⟩
+        · exact Or.inr ⟨w, WPc.start, _, hw, (by intro b h; exact WPc.noConfusion h), (by intro h; cases h), rfl, (by intro e; cases e)⟩
     · exact Or.inl rfl
-  | truncate w =>
+  | truncate w i =>
     simp only [step]; split
-    · rename_i i hw
+    · rename_i d f hw
       split
-      · exact Or.inr ⟨w, WPc.writing _ _, _, hw, (by intro b h; exact WPc.noConfusion h), rfl⟩
+      · split
+        · exact Or.inl rfl
+        · exact Or.inr ⟨w, WPc.writing _ _, _, hw, (by intro b h; exact WPc.noConfusion h), (by intro h; cases h), rfl, (by intro e; cases e)⟩
       · exact Or.inl rfl
     · exact Or.inl rfl
-  | fill w =>
+  | grow w i k =>
     simp only [step]; split
-    · rename_i i hw
+    · rename_i d f hw
       split
-      · exact Or.inr ⟨w, WPc.writing _ _, _, hw, (by intro b h; exact WPc.noConfusion h), rfl⟩
+      · split
+        · exact Or.inr ⟨w, WPc.writing _ _, _, hw, (by intro b h; exact WPc.noConfusion h), (by intro h; cases h), rfl, (by intro e; cases e)⟩
+        · exact Or.inl rfl
+      · exact Or.inl rfl
+    · exact Or.inl rfl
+  | fill w i =>
+    simp only [step]; split
+    · rename_i d f hw
+      split
+      · exact Or.inr ⟨w, WPc.writing _ _, _, hw, (by intro b h; exact WPc.noConfusion h), (by intro h; cases h), rfl, (by intro e; cases e)⟩
       · exact Or.inl rfl
     · exact Or.inl rfl
   | fail w =>
     simp only [step]; split
-    · rename_i i t hw
-      split
-      · exact Or.inr ⟨w, WPc.writing _ _, _, hw, (by intro b h; exact WPc.noConfusion h), rfl⟩
-      · exact Or.inl rfl
+    · rename_i d f hw
+      exact Or.inr ⟨w, WPc.writing _ _, _, hw, (by intro b h; exact WPc.noConfusion h), (by intro h; cases h), rfl, (by intro e; cases e)⟩
     · exact Or.inl rfl
   | commit w =>
     simp only [step]; split
-    · rename_i i hw
+    · rename_i d f hw
       split
-      · exact Or.inr ⟨w, WPc.writing _ _, _, hw, (by intro b h; exact WPc.noConfusion h), rfl⟩
+      · refine Or.inr ⟨w, WPc.writing _ _, _, hw, (by intro b h; exact WPc.noConfusion h), (by intro h; cases h), rfl, ?_⟩
+        intro _
+        show markerOK (putObj s.entry markerPath markerCanonical) = true
+        unfold markerOK; rw [find_putObj_eq]; decide
       · exact Or.inl rfl
     · exact Or.inl rfl
   | commitFail w =>
     simp only [step]; split
-    · rename_i i hw
+    · rename_i d f hw
       split
-      · exact Or.inr ⟨w, WPc.writing _ _, _, hw, (by intro b h; exact WPc.noConfusion h), rfl⟩
+      · exact Or.inr ⟨w, WPc.writing _ _, _, hw, (by intro b h; exact WPc.noConfusion h), (by intro h; cases h), rfl, (by intro e; cases e)⟩
       · exact Or.inl rfl
     · exact Or.inl rfl
   | crash w =>
     simp only [step]; split
-    · rename_i i t hw; exact Or.inr ⟨w, WPc.writing i t, _, hw, (by intro b h; exact WPc.noConfusion h), rfl⟩
-    · rename_i hw; exact Or.inr ⟨w, WPc.start, _, hw, (by intro b h; exact WPc.noConfusion h), rfl⟩
+    · rename_i d f hw; exact Or.inr ⟨w, WPc.writing d f, _, hw, (by intro b h; exact WPc.noConfusion h), (by intro h; cases h), rfl, (by intro e; cases e)⟩
+    · rename_i hw; exact Or.inr ⟨w, WPc.start, _, hw, (by intro b h; exact WPc.noConfusion h), (by intro h; cases h), rfl, (by intro e; cases e)⟩
     · exact Or.inl rfl
 
 /-- A finished writer stays finished. -/
 theorem finished_stays (exp : Expected) (s : Sys) (a : Act) (w0 : Nat) (b : Bool)
     (h : s.writers[w0]? = some (WPc.finished b)) : (step exp s a).writers[w0]? = some (WPc.finished b) := by
-  rcases step_writers exp s a with e | ⟨w, pcOld, pcNew, hw, hnf, e⟩
+  rcases step_writers exp s a with e | ⟨w, pcOld, pcNew, hw, hnf, _, e, _⟩
   · rw [e]; exact h
   · rw [e]
     have : w ≠ w0 := by intro e'; subst e'; rw [h] at hw; exact hnf b (Option.some.inj hw).symm
-    simp only [setPc]; rw [getElem?_set_ne' _ _ _ _ this]; exact h
+    simp only [setPc]; rw [getElem?_set_ne _ _ _ _ this]; exact h
+
+/-- Once the marker is valid no step of any writer modifies the entry. -/
+theorem step_entry_stable (exp : Expected) (s : Sys) (inv : Inv exp s) (hm : markerOK s.entry = true) (a : Act) :
+    (step exp s a).entry = s.entry := by
+  have nowriting : ∀ (w : Nat) (d : List Nat) (f : List (Nat × Nat)), s.writers[w]? ≠ some (WPc.writing d f) := by
+    intro w d f h
+    have := (inv.writing w d f h).2.1
+    rw [hm] at this; cases this
+  cases a with
+  | acquire w =>
+    simp only [step]; repeat' split
+    all_goals rfl
+  | truncate w i =>
+    simp only [step]; split
+    · rename_i d f hw; exact absurd hw (nowriting w d f)
+    · rfl
+  | grow w i k =>
+    simp only [step]; split
+    · rename_i d f hw; exact absurd hw (nowriting w d f)
+    · rfl
+  | fill w i =>
+    simp only [step]; split
+    · rename_i d f hw; exact absurd hw (nowriting w d f)
+    · rfl
+  | fail w =>
+    simp only [step]; split <;> rfl
+  | commit w =>
+    simp only [step]; split
+    · rename_i d f hw; exact absurd hw (nowriting w d f)
+    · rfl
+  | commitFail w =>
+    simp only [step]; split
+    · split <;> rfl
+    · rfl
+  | crash w =>
+    simp only [step]; split <;> rfl
 
 /-- The marker becomes valid only through a successful commit. -/
 theorem step_marker (exp : Expected) (wf : WF exp) (s : Sys) (a : Act)
@@ -332,39 +536,51 @@ theorem step_marker (exp : Expected) (wf : WF exp) (s : Sys) (a : Act)
   cases a with
   | acquire w =>
     simp only [step] at h; split at h
-    · split at h <;> exact Or.inl h
+    · split at h
+      · exact Or.inl h
+      · split at h <;> exact Or.inl h
     · exact Or.inl h
-  | truncate w =>
+  | truncate w i =>
     simp only [step] at h; split at h
     · split at h
       · rename_i p c hk
-        simp only at h
-        rw [markerOK_putObj_ne _ _ _ (payload_path_ne_marker wf hk)] at h; exact Or.inl h
+        split at h
+        · exact Or.inl h
+        · simp only at h
+          rw [markerOK_putObj_ne _ _ _ (payload_path_ne_marker wf hk)] at h; exact Or.inl h
       · exact Or.inl h
     · exact Or.inl h
-  | fill w =>
+  | grow w i k =>
     simp only [step] at h; split at h
     · split at h
-      · rename_i p c hk
+      · rename_i p c k0 hk _
+        split at h
+        · simp only at h
+          rw [markerOK_putObj_ne _ _ _ (payload_path_ne_marker wf hk)] at h; exact Or.inl h
+        · exact Or.inl h
+      · exact Or.inl h
+    · exact Or.inl h
+  | fill w i =>
+    simp only [step] at h; split at h
+    · split at h
+      · rename_i p c k0 hk _
         simp only at h
         rw [markerOK_putObj_ne _ _ _ (payload_path_ne_marker wf hk)] at h; exact Or.inl h
       · exact Or.inl h
     · exact Or.inl h
   | fail w =>
-    simp only [step] at h; split at h
-    · split at h <;> exact Or.inl h
-    · exact Or.inl h
+    simp only [step] at h; split at h <;> exact Or.inl h
   | commit w =>
     simp only [step] at h ⊢; split
-    · rename_i i hw
+    · rename_i d f hw
       split
       · refine Or.inr ⟨w, ?_⟩
         simp only [setPc]; exact getElem?_set_eq _ _ _ (lt_of_getElem?_some hw)
       · rename_i hne
-        simp only [hw, hne, if_false] at h; exact Or.inl h
+        simp only [hw, hne] at h; exact Or.inl h
     · rename_i hne
       split at h
-      · rename_i i hw; exact absurd hw (hne i)
+      · rename_i d f hw; exact absurd hw (hne d f)
       · exact Or.inl h
   | commitFail w =>
     simp only [step] at h; split at h
@@ -388,124 +604,420 @@ theorem marker_needs_success (exp : Expected) (wf : WF exp) (acts : List Act) (s
       exact ⟨w0, finished_stays exp s a w0 true hw0⟩
     · exact hnew
 
+/-- A store returns success only by seeing a valid marker (acquire) or by writing it (commit). -/
+theorem step_new_success (exp : Expected) (s : Sys) (a : Act) (w0 : Nat)
+    (h : (step exp s a).writers[w0]? = some (WPc.finished true)) :
+    s.writers[w0]? = some (WPc.finished true) ∨ markerOK (step exp s a).entry = true := by
+  rcases step_writers exp s a with e | ⟨w, pcOld, pcNew, hw, _, _, e, hnew⟩
+  · rw [e] at h; exact Or.inl h
+  · rw [e] at h
+    by_cases hww : w = w0
+    · subst hww
+      simp only [setPc] at h
+      rw [getElem?_set_eq _ _ _ (lt_of_getElem?_some hw)] at h
+      exact Or.inr (hnew (Option.some.inj h))
+    · simp only [setPc] at h; rw [getElem?_set_ne _ _ _ _ hww] at h; exact Or.inl h
 
-/-! ### A fault-free store completes the entry from any reachable state -/
+/-- In every reachable state: some store returned success ⇒ the marker is valid. -/
+theorem success_needs_marker (exp : Expected) (wf : WF exp) (acts : List Act) (s : Sys) (inv : Inv exp s)
+    (hs : ∀ w : Nat, s.writers[w]? = some (WPc.finished true) → markerOK s.entry = true)
+    (w : Nat) (h : (runActs exp s acts).writers[w]? = some (WPc.finished true)) :
+    markerOK (runActs exp s acts).entry = true := by
+  induction acts generalizing s with
+  | nil => exact hs w h
+  | cons a rest ih =>
+    apply ih (step exp s a) (step_inv wf s inv a) _ h
+    intro w0 hw0
+    rcases step_new_success exp s a w0 hw0 with hold | hnew
+    · have hm := hs w0 hold
+      rw [step_entry_stable exp s inv hm a]; exact hm
+    · exact hnew
 
-def rounds (w : Nat) : Nat → List Act
-  | 0 => []
-  | k + 1 => Act.truncate w :: Act.fill w :: rounds w k
+/-- An unparsable marker never appears by itself: payload writes do not touch the marker and a
+    commit writes the canonical one. -/
+theorem step_garbled (exp : Expected) (wf : WF exp) (s : Sys) (a : Act)
+    (h : markerGarbled s.entry = false) : markerGarbled (step exp s a).entry = false := by
+  cases a with
+  | acquire w =>
+    simp only [step]; split
+    · split
+      · exact h
+      · split <;> exact h
+    · exact h
+  | truncate w i =>
+    simp only [step]; split
+    · split
+      · rename_i p c hk
+        split
+        · exact h
+        · simp only; rw [markerGarbled_putObj_ne _ _ _ (payload_path_ne_marker wf hk)]; exact h
+      · exact h
+    · exact h
+  | grow w i k =>
+    simp only [step]; split
+    · split
+      · rename_i p c k0 hk _
+        split
+        · simp only; rw [markerGarbled_putObj_ne _ _ _ (payload_path_ne_marker wf hk)]; exact h
+        · exact h
+      · exact h
+    · exact h
+  | fill w i =>
+    simp only [step]; split
+    · split
+      · rename_i p c k0 hk _
+        simp only; rw [markerGarbled_putObj_ne _ _ _ (payload_path_ne_marker wf hk)]; exact h
+      · exact h
+    · exact h
+  | fail w =>
+    simp only [step]; split <;> exact h
+  | commit w =>
+    simp only [step]; split
+    · split
+      · show markerGarbled (putObj s.entry markerPath markerCanonical) = false
+        unfold markerGarbled; rw [find_putObj_eq]; decide
+      · exact h
+    · exact h
+  | commitFail w =>
+    simp only [step]; split
+    · split <;> exact h
+    · exact h
+  | crash w =>
+    simp only [step]; split <;> exact h
 
-/-- The action sequence of one uninterrupted, fault-free store by writer `w`. -/
-def storeActs (exp : Expected) (w : Nat) : List Act :=
-  Act.acquire w :: (rounds w exp.payload.length ++ [Act.commit w])
+theorem runActs_garbled (exp : Expected) (wf : WF exp) (acts : List Act) (s : Sys)
+    (h : markerGarbled s.entry = false) : markerGarbled (runActs exp s acts).entry = false := by
+  induction acts generalizing s with
+  | nil => exact h
+  | cons a rest ih => exact ih _ (step_garbled exp wf s a h)
 
-theorem step_truncate_eq (exp : Expected) (s : Sys) (w i : Nat) (p : Str) (c : Content)
-    (hw : s.writers[w]? = some (WPc.writing i false)) (hk : exp.payload[i]? = some (p, c)) :
-    step exp s (Act.truncate w) =
-      { s with entry := putObj s.entry p "", writers := setPc s.writers w (WPc.writing i true) } := by
-  simp only [step, hw, hk]
 
-theorem step_fill_eq (exp : Expected) (s : Sys) (w i : Nat) (p : Str) (c : Content)
-    (hw : s.writers[w]? = some (WPc.writing i true)) (hk : exp.payload[i]? = some (p, c)) :
-    step exp s (Act.fill w) =
-      { s with entry := putObj s.entry p c, writers := setPc s.writers w (WPc.writing (i + 1) false) } := by
-  simp only [step, hw, hk]
+/-! ### A fault-free store completes the entry — files in any order, any number in flight -/
 
-theorem step_commit_eq (exp : Expected) (s : Sys) (w : Nat)
-    (hw : s.writers[w]? = some (WPc.writing exp.payload.length false)) :
-    step exp s (Act.commit w) =
-      { entry := putObj s.entry markerPath markerCanonical, lock := none,
-        writers := setPc s.writers w (WPc.finished true) } := by
-  simp only [step, hw, if_true]
+/-- An action by which writer `w` writes payload data (no failure, no crash, no commit). -/
+def OwnWrite (w : Nat) : Act → Prop
+  | .truncate w' _ => w' = w
+  | .grow w' _ _ => w' = w
+  | .fill w' _ => w' = w
+  | _ => False
 
-theorem rounds_progress (exp : Expected) (w : Nat) (k : Nat) (s : Sys) (i : Nat)
-    (hw : s.writers[w]? = some (WPc.writing i false)) (hik : i + k ≤ exp.payload.length) :
-    (runActs exp s (rounds w k)).writers[w]? = some (WPc.writing (i + k) false) := by
-  induction k generalizing s i with
-  | zero => simpa [rounds, runActs] using hw
-  | succ k ih =>
-    have hil : i < exp.payload.length := by omega
-    have hwl := lt_of_getElem?_some hw
-    obtain ⟨pc, hpc⟩ : ∃ pc, exp.payload[i]? = some pc := ⟨exp.payload[i], List.getElem?_eq_getElem hil⟩
-    obtain ⟨p, c⟩ := pc
-    have e1 := step_truncate_eq exp s w i p c hw hpc
-    have h1 : (step exp s (Act.truncate w)).writers[w]? = some (WPc.writing i true) := by
-      rw [e1]; simp only [setPc]; exact getElem?_set_eq _ _ _ hwl
-    have hwl1 := lt_of_getElem?_some h1
-    have e2 := step_fill_eq exp (step exp s (Act.truncate w)) w i p c h1 hpc
-    have h2 : (step exp (step exp s (Act.truncate w)) (Act.fill w)).writers[w]? = some (WPc.writing (i + 1) false) := by
-      rw [e2]; simp only [setPc]; exact getElem?_set_eq _ _ _ hwl1
-    have := ih (step exp (step exp s (Act.truncate w)) (Act.fill w)) (i + 1) h2 (by omega)
-    have hshape : runActs exp s (rounds w (k + 1)) =
-        runActs exp (step exp (step exp s (Act.truncate w)) (Act.fill w)) (rounds w k) := rfl
-    rw [hshape, this]; congr 2; omega
+instance (w : Nat) : DecidablePred (OwnWrite w) := by
+  intro a; cases a <;> simp only [OwnWrite] <;> infer_instance
+
+/-- Object `i` has been started (it is in flight or done). -/
+def Started (done : List Nat) (infl : List (Nat × Nat)) (i : Nat) : Prop :=
+  i ∈ done ∨ (inflK infl i).isSome = true
+
+/-- A fault-free write phase of writer `w`: only its own truncate/grow/fill actions, in ANY order
+    and interleaving, such that every payload object is started and later filled.  (Actions that
+    are not enabled are no-ops, so repeated or premature ones are harmless.) -/
+structure FaultFree (exp : Expected) (w : Nat) (acts : List Act) : Prop where
+  own : ∀ a ∈ acts, OwnWrite w a
+  all : ∀ i, i < exp.payload.length →
+    ∃ l1 l2 l3, acts = l1 ++ Act.truncate w i :: (l2 ++ Act.fill w i :: l3)
+
+/-- One whole store by writer `w` with the given write phase. -/
+def storeWith (w : Nat) (acts : List Act) : List Act := Act.acquire w :: (acts ++ [Act.commit w])
+
+theorem started_mono_cons {done : List Nat} {infl : List (Nat × Nat)} (i k : Nat) (i0 : Nat)
+    (h : Started done infl i0) : Started done ((i, k) :: dropIdx infl i) i0 := by
+  rcases h with h | h
+  · exact Or.inl h
+  · by_cases e : i = i0
+    · subst e; exact Or.inr (by rw [inflK_cons_eq]; rfl)
+    · exact Or.inr (by rw [inflK_cons_ne _ _ _ _ e, inflK_dropIdx_ne _ _ _ e]; exact h)
+
+theorem step_own (exp : Expected) (s : Sys) (inv : Inv exp s) (w : Nat) (done : List Nat) (infl : List (Nat × Nat))
+    (hw : s.writers[w]? = some (.writing done infl)) (a : Act) (ha : OwnWrite w a) :
+    ∃ done' infl', (step exp s a).writers[w]? = some (.writing done' infl') ∧
+      (∀ i, i ∈ done → i ∈ done') ∧ (∀ i, Started done infl i → Started done' infl' i) ∧
+      (∀ i, a = .truncate w i → i < exp.payload.length → Started done' infl' i) ∧
+      (∀ i, a = .fill w i → Started done infl i → i ∈ done') := by
+  have hwl := lt_of_getElem?_some hw
+  cases a with
+  | truncate w' i =>
+    have e : w' = w := ha
+    subst e
+    cases hp : exp.payload[i]? with
+    | none =>
+      have hs : step exp s (.truncate w' i) = s := by simp only [step, hw, hp]
+      rw [hs]
+      refine ⟨done, infl, hw, fun _ h => h, fun _ h => h, ?_, (fun _ e => by cases e)⟩
+      intro i0 e hi0
+      injection e with _ e2; subst e2
+      have := List.getElem?_eq_none_iff.mp hp
+      omega
+    | some pc =>
+      obtain ⟨p, c⟩ := pc
+      by_cases hg : (done.contains i || (inflK infl i).isSome) = true
+      · have hs : step exp s (.truncate w' i) = s := by simp only [step, hw, hp, hg, if_true]
+        rw [hs]
+        refine ⟨done, infl, hw, fun _ h => h, fun _ h => h, ?_, (fun _ e => by cases e)⟩
+        intro i0 e _
+        injection e with _ e2; subst e2
+        simp only [Bool.or_eq_true, List.contains_iff_mem] at hg
+        exact hg
+      · have hs : step exp s (.truncate w' i) =
+            { s with entry := putObj s.entry p "", writers := setPc s.writers w' (.writing done ((i, 0) :: infl)) } := by
+          simp only [step, hw, hp, hg]; rfl
+        rw [hs]
+        refine ⟨done, (i, 0) :: infl, by simp only [setPc]; exact getElem?_set_eq _ _ _ hwl, fun _ h => h, ?_, ?_,
+          (fun _ e => by cases e)⟩
+        · intro i0 h
+          rcases h with h | h
+          · exact Or.inl h
+          · by_cases e : i = i0
+            · subst e; exact Or.inr (by rw [inflK_cons_eq]; rfl)
+            · exact Or.inr (by rw [inflK_cons_ne _ _ _ _ e]; exact h)
+        · intro i0 e _
+          injection e with _ e2; subst e2
+          exact Or.inr (by rw [inflK_cons_eq]; rfl)
+  | grow w' i k =>
+    have e : w' = w := ha
+    subst e
+    cases hp : exp.payload[i]? with
+    | none =>
+      have hs : step exp s (.grow w' i k) = s := by simp only [step, hw, hp]
+      rw [hs]
+      exact ⟨done, infl, hw, fun _ h => h, fun _ h => h, (fun _ e => by cases e), (fun _ e => by cases e)⟩
+    | some pc =>
+      obtain ⟨p, c⟩ := pc
+      cases hk : inflK infl i with
+      | none =>
+        have hs : step exp s (.grow w' i k) = s := by simp only [step, hw, hp, hk]
+        rw [hs]
+        exact ⟨done, infl, hw, fun _ h => h, fun _ h => h, (fun _ e => by cases e), (fun _ e => by cases e)⟩
+      | some k0 =>
+        by_cases hg : k0 ≤ k ∧ k ≤ c.length
+        · have hs : step exp s (.grow w' i k) =
+              { s with entry := putObj s.entry p (takeStr k c),
+                       writers := setPc s.writers w' (.writing done ((i, k) :: dropIdx infl i)) } := by
+            simp only [step, hw, hp, hk, hg, and_self, if_true]
+          rw [hs]
+          exact ⟨done, (i, k) :: dropIdx infl i, by simp only [setPc]; exact getElem?_set_eq _ _ _ hwl, fun _ h => h,
+            fun i0 h => started_mono_cons i k i0 h, (fun _ e => by cases e), (fun _ e => by cases e)⟩
+        · have hs : step exp s (.grow w' i k) = s := by simp only [step, hw, hp, hk, hg, if_false]
+          rw [hs]
+          exact ⟨done, infl, hw, fun _ h => h, fun _ h => h, (fun _ e => by cases e), (fun _ e => by cases e)⟩
+  | fill w' i =>
+    have e : w' = w := ha
+    subst e
+    have old := inv.writing w' done infl hw
+    cases hk : inflK infl i with
+    | none =>
+      have hs : step exp s (.fill w' i) = s := by
+        cases hp : exp.payload[i]? <;> simp only [step, hw, hp, hk]
+      rw [hs]
+      refine ⟨done, infl, hw, fun _ h => h, fun _ h => h, (fun _ e => by cases e), ?_⟩
+      intro i0 e h
+      injection e with _ e2; subst e2
+      rcases h with h | h
+      · exact h
+      · rw [hk] at h; cases h
+    | some k0 =>
+      obtain ⟨_, pc, hp, _, _⟩ := old.2.2.2 _ (inflK_some_mem hk)
+      obtain ⟨p, c⟩ := pc
+      simp only at hp
+      have hs : step exp s (.fill w' i) =
+          { s with entry := putObj s.entry p c, writers := setPc s.writers w' (.writing (i :: done) (dropIdx infl i)) } := by
+        simp only [step, hw, hp, hk]
+      rw [hs]
+      refine ⟨i :: done, dropIdx infl i, by simp only [setPc]; exact getElem?_set_eq _ _ _ hwl,
+        fun _ h => List.mem_cons_of_mem _ h, ?_, (fun _ e => by cases e), ?_⟩
+      · intro i0 h
+        rcases h with h | h
+        · exact Or.inl (List.mem_cons_of_mem _ h)
+        · by_cases e : i = i0
+          · subst e; exact Or.inl List.mem_cons_self
+          · exact Or.inr (by rw [inflK_dropIdx_ne _ _ _ e]; exact h)
+      · intro i0 e _
+        injection e with _ e2; subst e2
+        exact List.mem_cons_self
+  | acquire _ => exact absurd ha (by simp [OwnWrite])
+  | fail _ => exact absurd ha (by simp [OwnWrite])
+  | commit _ => exact absurd ha (by simp [OwnWrite])
+  | commitFail _ => exact absurd ha (by simp [OwnWrite])
+  | crash _ => exact absurd ha (by simp [OwnWrite])
+
+theorem run_own (exp : Expected) (wf : WF exp) (acts : List Act) (s : Sys) (inv : Inv exp s) (w : Nat)
+    (done : List Nat) (infl : List (Nat × Nat))
+    (hw : s.writers[w]? = some (.writing done infl)) (hown : ∀ a ∈ acts, OwnWrite w a) :
+    ∃ done' infl', (runActs exp s acts).writers[w]? = some (.writing done' infl') ∧
+      (∀ i, i ∈ done → i ∈ done') ∧ (∀ i, Started done infl i → Started done' infl' i) := by
+  induction acts generalizing s done infl with
+  | nil => exact ⟨done, infl, hw, fun _ h => h, fun _ h => h⟩
+  | cons a rest ih =>
+    obtain ⟨d1, f1, h1, hd1, hs1, _, _⟩ := step_own exp s inv w done infl hw a (hown a List.mem_cons_self)
+    obtain ⟨d2, f2, h2, hd2, hs2⟩ := ih (step exp s a) (step_inv wf s inv a) d1 f1 h1
+      (fun x hx => hown x (List.mem_cons_of_mem _ hx))
+    exact ⟨d2, f2, h2, fun i h => hd2 i (hd1 i h), fun i h => hs2 i (hs1 i h)⟩
+
+/-- After `… truncate w i … fill w i …` object `i` is done. -/
+theorem run_done (exp : Expected) (wf : WF exp) (s : Sys) (inv : Inv exp s) (w : Nat)
+    (done : List Nat) (infl : List (Nat × Nat)) (hw : s.writers[w]? = some (.writing done infl))
+    (l1 l2 l3 : List Act) (i : Nat) (hi : i < exp.payload.length)
+    (hown : ∀ a ∈ l1 ++ Act.truncate w i :: (l2 ++ Act.fill w i :: l3), OwnWrite w a) :
+    ∃ done' infl', (runActs exp s (l1 ++ Act.truncate w i :: (l2 ++ Act.fill w i :: l3))).writers[w]? =
+        some (.writing done' infl') ∧ i ∈ done' := by
+  have o1 : ∀ a ∈ l1, OwnWrite w a := fun a h => hown a (List.mem_append_left _ h)
+  have o2 : ∀ a ∈ l2, OwnWrite w a := fun a h =>
+    hown a (List.mem_append_right _ (List.mem_cons_of_mem _ (List.mem_append_left _ h)))
+  have o3 : ∀ a ∈ l3, OwnWrite w a := fun a h =>
+    hown a (List.mem_append_right _ (List.mem_cons_of_mem _ (List.mem_append_right _ (List.mem_cons_of_mem _ h))))
+  obtain ⟨d1, f1, h1, _, _⟩ := run_own exp wf l1 s inv w done infl hw o1
+  have inv1 := runActs_inv wf l1 s inv
+  obtain ⟨d2, f2, h2, _, _, ht, _⟩ := step_own exp _ inv1 w d1 f1 h1 (Act.truncate w i) rfl
+  have st2 := ht i rfl hi
+  have inv2 := step_inv wf _ inv1 (Act.truncate w i)
+  obtain ⟨d3, f3, h3, _, hs3⟩ := run_own exp wf l2 _ inv2 w d2 f2 h2 o2
+  have inv3 := runActs_inv wf l2 _ inv2
+  obtain ⟨d4, f4, h4, _, _, _, hf⟩ := step_own exp _ inv3 w d3 f3 h3 (Act.fill w i) rfl
+  have hd4 := hf i rfl (hs3 i st2)
+  have inv4 := step_inv wf _ inv3 (Act.fill w i)
+  obtain ⟨d5, f5, h5, hd5, _⟩ := run_own exp wf l3 _ inv4 w d4 f4 h4 o3
+  refine ⟨d5, f5, ?_, hd5 i hd4⟩
+  rw [runActs_append, runActs_cons, runActs_append, runActs_cons]
+  exact h5
 
 theorem step_finished_noop (exp : Expected) (s : Sys) (w : Nat) (b : Bool)
     (hw : s.writers[w]? = some (WPc.finished b)) (a : Act)
-    (ha : a = Act.truncate w ∨ a = Act.fill w ∨ a = Act.commit w) : step exp s a = s := by
-  rcases ha with e | e | e <;> subst e <;> simp only [step, hw]
+    (ha : OwnWrite w a ∨ a = Act.commit w) : step exp s a = s := by
+  rcases ha with ha | e
+  · cases a with
+    | truncate w' i => have e : w' = w := ha; subst e; simp only [step, hw]
+    | grow w' i k => have e : w' = w := ha; subst e; simp only [step, hw]
+    | fill w' i => have e : w' = w := ha; subst e; simp only [step, hw]
+    | acquire _ => exact absurd ha (by simp [OwnWrite])
+    | fail _ => exact absurd ha (by simp [OwnWrite])
+    | commit _ => exact absurd ha (by simp [OwnWrite])
+    | commitFail _ => exact absurd ha (by simp [OwnWrite])
+    | crash _ => exact absurd ha (by simp [OwnWrite])
+  · subst e; simp only [step, hw]
 
 theorem runActs_finished_noop (exp : Expected) (w : Nat) (b : Bool) (acts : List Act)
-    (hacts : ∀ a ∈ acts, a = Act.truncate w ∨ a = Act.fill w ∨ a = Act.commit w)
+    (hacts : ∀ a ∈ acts, OwnWrite w a ∨ a = Act.commit w)
     (s : Sys) (hw : s.writers[w]? = some (WPc.finished b)) : runActs exp s acts = s := by
   induction acts with
   | nil => rfl
   | cons a rest ih =>
-    simp only [runActs, List.foldl]
-    rw [step_finished_noop exp s w b hw a (hacts a (by simp))]
+    rw [runActs_cons, step_finished_noop exp s w b hw a (hacts a List.mem_cons_self)]
     exact ih (fun x hx => hacts x (List.mem_cons_of_mem _ hx))
 
-theorem rounds_mem (w k : Nat) : ∀ a ∈ rounds w k, a = Act.truncate w ∨ a = Act.fill w ∨ a = Act.commit w := by
-  induction k with
-  | zero => intro a h; cases h
-  | succ k ih =>
-    intro a h
-    simp only [rounds, List.mem_cons] at h
-    rcases h with e | e | h
-    · exact Or.inl e
-    · exact Or.inr (Or.inl e)
-    · exact ih a h
-
-/-- later_store_repairs: from ANY reachable state in which the lock is free — whatever partial,
-    truncated or missing files earlier crashed or failed stores left behind — one fault-free
-    store ends with a valid marker and returns success. -/
-theorem store_completes (exp : Expected) (s : Sys) (w : Nat)
-    (hlock : s.lock = none) (hw : s.writers[w]? = some WPc.start) :
-    markerOK (runActs exp s (storeActs exp w)).entry = true ∧
-      (runActs exp s (storeActs exp w)).writers[w]? = some (WPc.finished true) := by
+/-- store_completes: from ANY state satisfying the invariant in which the lock is free, writer `w`
+    has not started and the marker (if any) parses, one fault-free store — files written in any
+    order, any number in flight, growing by arbitrary prefixes — ends with a valid marker, returns
+    success and releases the lock. -/
+theorem store_completes (exp : Expected) (wf : WF exp) (s : Sys) (inv : Inv exp s) (w : Nat)
+    (hlock : s.lock = none) (hw : s.writers[w]? = some WPc.start)
+    (hg : markerGarbled s.entry = false) (acts : List Act) (hff : FaultFree exp w acts) :
+    markerOK (runActs exp s (storeWith w acts)).entry = true ∧
+      (runActs exp s (storeWith w acts)).writers[w]? = some (WPc.finished true) ∧
+      (runActs exp s (storeWith w acts)).lock = none := by
   have hwl := lt_of_getElem?_some hw
-  simp only [storeActs, runActs, List.foldl]
+  unfold storeWith
+  rw [runActs_cons]
   by_cases hm : markerOK s.entry = true
   · -- already complete: the store returns at once
     have h1 : step exp s (Act.acquire w) = { s with writers := setPc s.writers w (WPc.finished true) } := by
       simp only [step, hw, hlock, hm, if_true]
     have hf : (step exp s (Act.acquire w)).writers[w]? = some (WPc.finished true) := by
       rw [h1]; simp only [setPc]; exact getElem?_set_eq _ _ _ hwl
-    have := runActs_finished_noop exp w true (rounds w exp.payload.length ++ [Act.commit w])
+    rw [runActs_finished_noop exp w true (acts ++ [Act.commit w])
       (by intro a ha; rcases List.mem_append.mp ha with h | h
-          · exact rounds_mem w _ a h
-          · simp at h; exact Or.inr (Or.inr h)) _ hf
-    simp only [runActs] at this
-    rw [this]
-    exact ⟨by rw [h1]; exact hm, hf⟩
+          · exact Or.inl (hff.own a h)
+          · simp at h; exact Or.inr h) _ hf]
+    exact ⟨by rw [h1]; exact hm, hf, by rw [h1]; exact hlock⟩
   · have hmf : markerOK s.entry = false := by simpa using hm
     have h1 : step exp s (Act.acquire w) =
-        { s with lock := some w, writers := setPc s.writers w (WPc.writing 0 false) } := by
-      simp only [step, hw, hlock, hmf]; rfl
-    have hw1 : (step exp s (Act.acquire w)).writers[w]? = some (WPc.writing 0 false) := by
+        { s with lock := some w, writers := setPc s.writers w (WPc.writing [] []) } := by
+      simp only [step, hw, hlock, hmf, hg]; rfl
+    have hw1 : (step exp s (Act.acquire w)).writers[w]? = some (WPc.writing [] []) := by
       rw [h1]; simp only [setPc]; exact getElem?_set_eq _ _ _ hwl
-    rw [List.foldl_append]
-    have hr := rounds_progress exp w exp.payload.length (step exp s (Act.acquire w)) 0 hw1 (by omega)
-    simp only [runActs, Nat.zero_add] at hr
-    generalize List.foldl (step exp) (step exp s (Act.acquire w)) (rounds w exp.payload.length) = s2 at hr ⊢
-    have hwl2 := lt_of_getElem?_some hr
-    show markerOK (step exp s2 (Act.commit w)).entry = true ∧ (step exp s2 (Act.commit w)).writers[w]? = _
-    rw [step_commit_eq exp s2 w hr]
-    constructor
+    have inv1 := step_inv wf s inv (Act.acquire w)
+    rw [runActs_append]
+    obtain ⟨d, f, hw2, _, _⟩ := run_own exp wf acts _ inv1 w [] [] hw1 hff.own
+    have inv2 := runActs_inv wf acts _ inv1
+    have hall : ∀ i, i < exp.payload.length → i ∈ d := by
+      intro i hi
+      obtain ⟨l1, l2, l3, e⟩ := hff.all i hi
+      obtain ⟨d', f', hw', hid⟩ := run_done exp wf _ inv1 w [] [] hw1 l1 l2 l3 i hi (e ▸ hff.own)
+      rw [← e, hw2] at hw'
+      have := Option.some.inj hw'
+      injection this with e1 _
+      rw [e1]; exact hid
+    have hnil : f = [] := by
+      apply List.eq_nil_iff_forall_not_mem.mpr
+      intro ik hik
+      obtain ⟨hnd, pc, hpc, _, _⟩ := (inv2.writing w d f hw2).2.2.2 ik hik
+      exact hnd (hall ik.1 (lt_of_getElem?_some hpc))
+    subst hnil
+    generalize runActs exp (step exp s (Act.acquire w)) acts = s2 at hw2 inv2 ⊢
+    have hwl2 := lt_of_getElem?_some hw2
+    have hgd : (([] : List (Nat × Nat)).isEmpty && allDone exp.payload.length d) = true := by
+      rw [(allDone_iff _ _).mpr hall]; rfl
+    have hc : runActs exp s2 [Act.commit w] =
+        { entry := putObj s2.entry markerPath markerCanonical, lock := none,
+          writers := setPc s2.writers w (WPc.finished true) } := by
+      show step exp s2 (Act.commit w) = _
+      simp only [step, hw2]; rw [if_pos hgd]
+    rw [hc]
+    refine ⟨?_, ?_, rfl⟩
     · show markerOK (putObj s2.entry markerPath markerCanonical) = true
       unfold markerOK; rw [find_putObj_eq]; decide
     · simp only [setPc]; exact getElem?_set_eq _ _ _ hwl2
 
+/-! ### Concrete fault-free schedules: one file after the other in any order; all files in flight -/
+
+/-- One object after the other, in the given order. -/
+def seqSchedule (w : Nat) : List Nat → List Act
+  | [] => []
+  | i :: rest => Act.truncate w i :: Act.fill w i :: seqSchedule w rest
+
+/-- Everything is started (in `order1`), then everything is completed (in `order2`). -/
+def parSchedule (w : Nat) (order1 order2 : List Nat) : List Act :=
+  order1.map (Act.truncate w) ++ order2.map (Act.fill w)
+
+theorem seqSchedule_own (w : Nat) (order : List Nat) : ∀ a ∈ seqSchedule w order, OwnWrite w a := by
+  induction order with
+  | nil => intro a h; cases h
+  | cons i rest ih =>
+    intro a h
+    simp only [seqSchedule, List.mem_cons] at h
+    rcases h with e | e | h
+    · subst e; rfl
+    · subst e; rfl
+    · exact ih a h
+
+theorem seqSchedule_split (w : Nat) (order : List Nat) (i : Nat) (hi : i ∈ order) :
+    ∃ l1 l2 l3, seqSchedule w order = l1 ++ Act.truncate w i :: (l2 ++ Act.fill w i :: l3) := by
+  induction order with
+  | nil => cases hi
+  | cons j rest ih =>
+    rcases List.mem_cons.mp hi with e | hr
+    · subst e; exact ⟨[], [], seqSchedule w rest, rfl⟩
+    · obtain ⟨l1, l2, l3, e⟩ := ih hr
+      exact ⟨Act.truncate w j :: Act.fill w j :: l1, l2, l3, by simp only [seqSchedule, e, List.cons_append]⟩
+
+/-- Any order that mentions every payload index gives a fault-free write phase. -/
+theorem seqSchedule_faultFree (exp : Expected) (w : Nat) (order : List Nat)
+    (h : ∀ i, i < exp.payload.length → i ∈ order) : FaultFree exp w (seqSchedule w order) :=
+  ⟨seqSchedule_own w order, fun i hi => seqSchedule_split w order i (h i hi)⟩
+
+theorem parSchedule_faultFree (exp : Expected) (w : Nat) (order1 order2 : List Nat)
+    (h1 : ∀ i, i < exp.payload.length → i ∈ order1) (h2 : ∀ i, i < exp.payload.length → i ∈ order2) :
+    FaultFree exp w (parSchedule w order1 order2) := by
+  refine ⟨?_, ?_⟩
+  · intro a ha
+    rcases List.mem_append.mp ha with h | h
+    · obtain ⟨i, _, e⟩ := List.mem_map.mp h; subst e; rfl
+    · obtain ⟨i, _, e⟩ := List.mem_map.mp h; subst e; rfl
+  · intro i hi
+    obtain ⟨a1, b1, e1⟩ := List.append_of_mem (h1 i hi)
+    obtain ⟨a2, b2, e2⟩ := List.append_of_mem (h2 i hi)
+    refine ⟨a1.map (Act.truncate w), b1.map (Act.truncate w) ++ a2.map (Act.fill w), b2.map (Act.fill w), ?_⟩
+    unfold parSchedule
+    rw [e1, e2]
+    simp [List.map_append, List.append_assoc]
 
 /-! ### A complete entry loads as a hit with exactly the pinned module files -/
 
@@ -520,7 +1032,7 @@ def SidesOutsideFiles (exp : Expected) : Prop := ∀ s ∈ exp.sides, stripFiles
 
 theorem subsetOf_iff (a b : List (Str × Content)) : subsetOf a b = true ↔ ∀ x ∈ a, x ∈ b := by
   unfold subsetOf
-  simp [List.all_eq_true, List.contains_iff_mem]
+  simp [List.all_eq_true]
 
 theorem complete_loads_hit (exp : Expected) (hside : SidesOutsideFiles exp) (entry : Mem)
     (hc : Complete exp entry) (hm : entry.find markerPath = some markerCanonical)
@@ -591,5 +1103,265 @@ theorem complete_loads_hit (exp : Expected) (hside : SidesOutsideFiles exp) (ent
   simp only
   have hv : markerValid markerCanonical = true := by decide
   simp only [hv, Bool.not_true, Bool.false_eq_true, if_false, hsides, hsame, Bool.true_and, decide_true, if_true]
+
+/-! ### The write phase under a fault schedule: link to the C15 model -/
+
+section FaultLink
+open BufModel.Faults BufProofs.C15
+
+/-- Payload paths are validated normal paths (what a bucket walk yields and the store joins). -/
+def PayloadValid (exp : Expected) : Prop := ∀ pc ∈ exp.payload, validatePath pc.1 = .ok pc.1
+
+/-- Writing one object never touches another key — whether or not the write fails. -/
+theorem writeObj_frame (joins : Bool) (s : Sched) (d : Dest) (path : Str) (chunks : List Content)
+    (hv : validatePath path = .ok path) (k : Str) (hk : path ≠ k) :
+    (writeObj joins s d path chunks).2.mem.find k = d.mem.find k := by
+  unfold writeObj
+  split
+  · rfl
+  · rw [hv]
+    simp only
+    rw [find_cons_ne _ _ _ _ hk, find_erase_ne _ _ _ hk]
+
+theorem copyAll_frame (fx : Facts) (s : Sched) (d : Dest) (jobs : List (Str × List Content))
+    (hvalid : ∀ j ∈ jobs, validatePath j.1 = .ok j.1) (k : Str) (hk : k ∉ jobs.map (·.1)) :
+    (copyAll fx s d jobs).2.1.mem.find k = d.mem.find k := by
+  induction jobs generalizing d with
+  | nil => rfl
+  | cons j rest ih =>
+    obtain ⟨p, cs⟩ := j
+    simp only [List.map, List.mem_cons, not_or] at hk
+    simp only [copyAll]
+    rw [ih _ (fun j hj => hvalid j (List.mem_cons_of_mem _ hj)) hk.2]
+    unfold copyPath
+    exact writeObj_frame _ s d p cs (hvalid (p, cs) List.mem_cons_self) k (fun e => hk.1 e.symm)
+
+theorem putSides_frame (fx : Facts) (s : Sched) (d : Dest) (jobs : List (Str × List Content))
+    (hvalid : ∀ j ∈ jobs, validatePath j.1 = .ok j.1) (k : Str) (hk : k ∉ jobs.map (·.1)) :
+    (putSides fx s d jobs).2.mem.find k = d.mem.find k := by
+  induction jobs generalizing d with
+  | nil => rfl
+  | cons j rest ih =>
+    obtain ⟨p, cs⟩ := j
+    simp only [List.map, List.mem_cons, not_or] at hk
+    have h1 : (putPath fx s d p cs).2.mem.find k = d.mem.find k :=
+      writeObj_frame _ s d p cs (hvalid (p, cs) List.mem_cons_self) k (fun e => hk.1 e.symm)
+    simp only [putSides]
+    split
+    · exact h1
+    · rw [ih _ (fun j hj => hvalid j (List.mem_cons_of_mem _ hj)) hk.2]; exact h1
+
+/-- no_silent_failure for the side-file phase: success ⇒ no fault fired and every side file is in
+    the destination in full; nothing else changed. -/
+theorem putSides_ok (s : Sched) (jobs : List (Str × List Content)) (d d' : Dest)
+    (hvalid : ∀ j ∈ jobs, validatePath j.1 = .ok j.1)
+    (hnodup : (jobs.map (·.1)).Nodup)
+    (h : putSides Facts.allTrue s d jobs = (false, d')) :
+    d'.fired = d.fired ∧ (∀ j ∈ jobs, d'.mem.find j.1 = some (joinContent j.2)) := by
+  induction jobs generalizing d with
+  | nil => simp [putSides] at h; subst h; simp
+  | cons j rest ih =>
+    obtain ⟨p, cs⟩ := j
+    simp only [putSides] at h
+    split at h
+    · simp at h
+    · rename_i hne
+      have hw : writeObj true s d p cs = (false, (writeObj true s d p cs).2) := by
+        have : (writeObj true s d p cs).1 = false := by simpa [putPath, Facts.allTrue] using hne
+        exact Prod.ext this rfl
+      obtain ⟨hf, q, hq, hmem⟩ := writeObj_ok s d _ p cs hw
+      have hpq : q = p := by
+        have := hvalid (p, cs) List.mem_cons_self; simp only at this; rw [this] at hq
+        injection hq with e; exact e.symm
+      subst hpq
+      simp only [List.map, List.nodup_cons] at hnodup
+      have h' : putSides Facts.allTrue s (writeObj true s d q cs).2 rest = (false, d') := by
+        simpa [putPath, Facts.allTrue] using h
+      obtain ⟨ihf, ihall⟩ := ih _ (fun j hj => hvalid j (List.mem_cons_of_mem _ hj)) hnodup.2 h'
+      refine ⟨by rw [ihf, hf], ?_⟩
+      intro j hjm
+      rcases List.mem_cons.mp hjm with e | hr
+      · subst e
+        have hfr := putSides_frame Facts.allTrue s (writeObj true s d q cs).2 rest
+          (fun j hj => hvalid j (List.mem_cons_of_mem _ hj)) q hnodup.1
+        rw [h'] at hfr
+        simp only at hfr ⊢
+        rw [hfr, hmem, find_cons_eq]
+      · exact ihall j hr
+
+theorem atomicRun_err_final (old : Option Content) (chunks : List Content) (failAt : Option Nat)
+    (h : (atomicRun old chunks failAt).1 = true) : (atomicRun old chunks failAt).2.final = old := by
+  unfold atomicRun at h ⊢
+  simp only at h ⊢
+  split
+  · rfl
+  · rename_i h0
+    rw [if_neg h0] at h
+    have hfin := atomicWrites_final failAt (aStep { final := old, temp := none } .createTemp) 1 false chunks
+    split
+    · simp only; rw [hfin]; rfl
+    · rename_i h1
+      rw [if_neg h1] at h
+      split
+      · simp only; rw [hfin]; rfl
+      · rename_i h2
+        rw [if_neg h2] at h; cases h
+
+theorem fileJobs_paths (exp : Expected) (chunk : Content → List Content) :
+    (fileJobs exp chunk).map (·.1) ++ (sideJobs exp chunk).map (·.1) = exp.payload.map (·.1) := by
+  simp [fileJobs, sideJobs, Expected.payload, List.map_append, List.map_map, Function.comp_def]
+
+theorem fileJobs_valid {exp : Expected} (hv : PayloadValid exp) (chunk : Content → List Content) :
+    ∀ j ∈ fileJobs exp chunk, validatePath j.1 = .ok j.1 := by
+  intro j hj
+  obtain ⟨f, hf, e⟩ := List.mem_map.mp hj
+  subst e
+  exact hv (filesPrefix ++ f.1, f.2) (List.mem_append.mpr (Or.inl (List.mem_map.mpr ⟨f, hf, rfl⟩)))
+
+theorem sideJobs_valid {exp : Expected} (hv : PayloadValid exp) (chunk : Content → List Content) :
+    ∀ j ∈ sideJobs exp chunk, validatePath j.1 = .ok j.1 := by
+  intro j hj
+  obtain ⟨f, hf, e⟩ := List.mem_map.mp hj
+  subst e
+  exact hv f (List.mem_append.mpr (Or.inr hf))
+
+theorem marker_not_job {exp : Expected} (wf : WF exp) (chunk : Content → List Content) :
+    markerPath ∉ (fileJobs exp chunk).map (·.1) ∧ markerPath ∉ (sideJobs exp chunk).map (·.1) := by
+  have := wf.noMarker
+  rw [← fileJobs_paths exp chunk] at this
+  exact ⟨fun h => this (List.mem_append_left _ h), fun h => this (List.mem_append_right _ h)⟩
+
+/-- A failing step index names an actual step of the atomic put. -/
+def FailAtInRange (chunks : List Content) (failAt : Option Nat) : Prop :=
+  ∀ k, failAt = some k → k ≤ chunks.length + 2
+
+theorem atomicRun_ok_final (old : Option Content) (chunks : List Content) (failAt : Option Nat)
+    (hr : FailAtInRange chunks failAt) (h : (atomicRun old chunks failAt).1 = false) :
+    failAt = none ∧ (atomicRun old chunks failAt).2.final = some (joinContent chunks) := by
+  cases failAt with
+  | none => rw [atomic_success]; exact ⟨rfl, rfl⟩
+  | some k => rw [atomic_failed_leaves_old old chunks k (hr k rfl)] at h; cases h
+
+/-- The marker is written only if every earlier phase REPORTED success — and then (C15
+    `copyAll_ok`, `writeObj_ok`, `atomic_success`) no scheduled fault fired, no step of the marker
+    put failed, and every payload object is in the entry in full. -/
+theorem storeRun_ok (exp : Expected) (wf : WF exp) (hv : PayloadValid exp)
+    (chunk : Content → List Content) (hchunk : ∀ c, joinContent (chunk c) = c)
+    (s : Sched) (mch : List Content) (mfail : Option Nat) (hr : FailAtInRange mch mfail) (d d' : Dest)
+    (h : storeRun Facts.allTrue s mch mfail d (fileJobs exp chunk) (sideJobs exp chunk) = (false, d')) :
+    d'.fired = d.fired ∧ mfail = none ∧ Complete exp d'.mem ∧
+      d'.mem.find markerPath = some (joinContent mch) := by
+  have hpaths := fileJobs_paths exp chunk
+  have hnd : ((fileJobs exp chunk).map (·.1) ++ (sideJobs exp chunk).map (·.1)).Nodup := by
+    rw [hpaths]; exact wf.nodup
+  obtain ⟨hndf, hnds, hdisj⟩ := List.nodup_append.mp hnd
+  unfold storeRun at h
+  simp only at h
+  split at h
+  · simp at h
+  · rename_i hc
+    split at h
+    · simp at h
+    · rename_i hs
+      have hcopy : copyAll Facts.allTrue s d (fileJobs exp chunk) =
+          (false, (copyAll Facts.allTrue s d (fileJobs exp chunk)).2.1,
+            (copyAll Facts.allTrue s d (fileJobs exp chunk)).2.2) :=
+        Prod.ext (by simpa using hc) rfl
+      obtain ⟨cf, _, call, _⟩ := copyAll_ok s (fileJobs exp chunk) d _ _ (fileJobs_valid hv chunk) hndf hcopy
+      generalize (copyAll Facts.allTrue s d (fileJobs exp chunk)).2.1 = d1 at *
+      have hside : putSides Facts.allTrue s d1 (sideJobs exp chunk) =
+          (false, (putSides Facts.allTrue s d1 (sideJobs exp chunk)).2) :=
+        Prod.ext (by simpa using hs) rfl
+      obtain ⟨sf, sall⟩ := putSides_ok s (sideJobs exp chunk) d1 _ (sideJobs_valid hv chunk) hnds hside
+      have sframe := putSides_frame Facts.allTrue s d1 (sideJobs exp chunk) (sideJobs_valid hv chunk)
+      generalize (putSides Facts.allTrue s d1 (sideJobs exp chunk)).2 = d2 at *
+      have herr := congrArg Prod.fst h
+      have hd := congrArg Prod.snd h
+      simp only at herr hd
+      obtain ⟨hnone, hfinal⟩ := atomicRun_ok_final _ mch mfail hr herr
+      rw [hfinal] at hd
+      simp only at hd
+      subst hd
+      refine ⟨by simp only; rw [sf, cf], hnone, ?_, find_putObj_eq _ _ _⟩
+      intro pc hpc
+      have hne : markerPath ≠ pc.1 := fun e => wf.noMarker (e ▸ List.mem_map.mpr ⟨pc, hpc, rfl⟩)
+      simp only
+      rw [find_putObj_ne _ _ _ _ hne]
+      rcases List.mem_append.mp hpc with hf | hsd
+      · obtain ⟨f, hfm, e⟩ := List.mem_map.mp hf
+        subst e
+        have hj : (filesPrefix ++ f.1, chunk f.2) ∈ fileJobs exp chunk := List.mem_map.mpr ⟨f, hfm, rfl⟩
+        have hnot : (filesPrefix ++ f.1) ∉ (sideJobs exp chunk).map (·.1) :=
+          fun hin => hdisj _ (List.mem_map.mpr ⟨_, hj, rfl⟩) _ hin rfl
+        simp only
+        rw [sframe _ hnot, call _ hj, hchunk]
+      · have hj : (pc.1, chunk pc.2) ∈ sideJobs exp chunk := List.mem_map.mpr ⟨pc, hsd, rfl⟩
+        rw [sall _ hj, hchunk]
+
+/-- A store that reports an error has not touched the marker: whichever phase failed — a file
+    copy, a side file, or a step of the atomic marker put — the object at `module.yaml` is the one
+    that was there before. -/
+theorem storeRun_err_marker_untouched (exp : Expected) (wf : WF exp) (hv : PayloadValid exp)
+    (chunk : Content → List Content) (fx : Facts)
+    (s : Sched) (mch : List Content) (mfail : Option Nat) (d : Dest)
+    (h : (storeRun fx s mch mfail d (fileJobs exp chunk) (sideJobs exp chunk)).1 = true) :
+    (storeRun fx s mch mfail d (fileJobs exp chunk) (sideJobs exp chunk)).2.mem.find markerPath =
+      d.mem.find markerPath := by
+  obtain ⟨hmf, hms⟩ := marker_not_job wf chunk
+  have e1 := copyAll_frame fx s d (fileJobs exp chunk) (fileJobs_valid hv chunk) markerPath hmf
+  have e2 := putSides_frame fx s (copyAll fx s d (fileJobs exp chunk)).2.1 (sideJobs exp chunk)
+    (sideJobs_valid hv chunk) markerPath hms
+  unfold storeRun at h ⊢
+  simp only at h ⊢
+  split
+  · exact e1
+  · rename_i hc
+    rw [if_neg hc] at h
+    split
+    · rw [e2, e1]
+    · rename_i hs
+      rw [if_neg hs] at h
+      simp only at h ⊢
+      have hfin := atomicRun_err_final _ mch mfail h
+      rw [hfin]
+      cases hold : (putSides fx s (copyAll fx s d (fileJobs exp chunk)).2.1 (sideJobs exp chunk)).2.mem.find markerPath with
+      | none => simp only; rw [find_erase_eq, ← e1, ← e2, hold]
+      | some c => simp only; rw [find_putObj_eq, ← e1, ← e2, hold]
+
+/-- If any scheduled fault fires during the file or side-file phase, the store reports an error
+    (contrapositive of `storeRun_ok`). -/
+theorem storeRun_fault_reported (exp : Expected) (wf : WF exp) (hv : PayloadValid exp)
+    (chunk : Content → List Content) (hchunk : ∀ c, joinContent (chunk c) = c)
+    (s : Sched) (mch : List Content) (mfail : Option Nat) (hr : FailAtInRange mch mfail) (d : Dest)
+    (hfired : (storeRun Facts.allTrue s mch mfail d (fileJobs exp chunk) (sideJobs exp chunk)).2.fired ≠ d.fired) :
+    (storeRun Facts.allTrue s mch mfail d (fileJobs exp chunk) (sideJobs exp chunk)).1 = true := by
+  cases he : (storeRun Facts.allTrue s mch mfail d (fileJobs exp chunk) (sideJobs exp chunk)).1 with
+  | true => rfl
+  | false =>
+    exfalso
+    exact hfired (storeRun_ok exp wf hv chunk hchunk s mch mfail hr d _ (Prod.ext he rfl)).1
+
+end FaultLink
+
+/-! ### Tar layout -/
+
+theorem tarEntry_nodup {exp : Expected} (wf : WF exp) : NodupKeys (tarEntry exp) := by
+  unfold NodupKeys tarEntry
+  simp only [List.map]
+  exact List.nodup_cons.mpr ⟨wf.noMarker, wf.nodup⟩
+
+theorem tarEntry_onlyKeys (exp : Expected) : OnlyPayloadKeys exp (tarEntry exp) := by
+  intro kv hkv
+  rcases List.mem_cons.mp hkv with e | h
+  · subst e; exact Or.inl rfl
+  · exact Or.inr (List.mem_map.mpr ⟨kv, h, rfl⟩)
+
+theorem tarEntry_complete {exp : Expected} (wf : WF exp) : Complete exp (tarEntry exp) := by
+  intro pc hpc
+  exact (mem_iff_find (tarEntry_nodup wf) pc.1 pc.2).mp (List.mem_cons_of_mem _ hpc)
+
+theorem tarEntry_marker (exp : Expected) : (tarEntry exp).find markerPath = some markerCanonical :=
+  find_cons_eq _ _ _
+
 
 end BufModel.Cache
